@@ -253,8 +253,10 @@ Theorem C16_set_shared_result :
 Proof. exact shared_set_result_same_key. Qed.
 Print Assumptions C16_set_shared_result.
 
-(* with constant-function calls in the mix (the host-only follow-up Set of the
-   single-context cache) the statement holds for every key on which only real
+(* Since fix b278d84 the host-only follow-up of the single-context cache is a plain
+   store, so every Set call is a real fetch and C16_set_shared_result covers the
+   single-context cache too.  Before it, the follow-up was a Set call with a
+   constant function; then the statement holds for every key on which only real
    fetches run -- every key but the empty scope key *)
 Theorem C16_set_shared_result_partial :
   forall calls K, (forall g, ck (calls g) = K -> csrc (calls g) = None) ->
@@ -273,8 +275,8 @@ Theorem C16_single_cache_set_prefix_refuted :
 Proof. exact fallback_prefix_refuted. Qed.
 Print Assumptions C16_single_cache_set_prefix_refuted.
 
-(* known finding (current code): with the EMPTY scope key the first call of the
-   single-context cache shares its status key with follow-up calls *)
+(* before fix b278d84: with the EMPTY scope key the first call of the
+   single-context cache shared its status key with follow-up calls *)
 Theorem C16_single_cache_empty_key_refuted :
   let calls := table_calls [(1, mkCall kx None); (2, mkCall k0 (Some 1)); (3, mkCall k0 None)] in
   exists tr st, crun calls cinit tr = Some st /\
